@@ -20,7 +20,7 @@ Cap(x) == IF x > 150 THEN 150 ELSE x
 P1(x) == Cap(x) + 1
 Bound(site, c) ==
   LET nd == P1(c.nodes)  fr == P1(c.frags)  op == P1(c.ops) IN
-  CASE site = 1 -> (op + fr) * nd
+  CASE site = 1 -> 2 * (op + fr) * nd     \* (the document is walked twice: once to link it, once with the rules observing)
     [] site = 2 -> 4 * nd * nd
     [] site = 3 -> nd * nd * nd * nd
     [] site = 4 -> nd * nd * nd * nd
